@@ -792,7 +792,8 @@ func runGen(cfg Config, args []string, prop string) int {
 		b.Rule = "gensim worlds (shared with C07): methods with :preprocess/:postprocess hooks over destination by pointer/value x source by pointer/value x with/without error x declaring the additional parameters or not x local or imported (blank-imported package) x style return/arg x pointer/value operands x receiver x 0-2 additional arguments; " +
 			"by-pointer preprocess stubs write sentinels into every destination field; every hook records pointer identities and JSON snapshots of its operands. Oracle on the fault-free history: exactly once, pre first / post last, pre sees the destination as on entry, post sees the final value, own pointers, source and additional arguments as passed, " +
 			"and the sentinel differential against the hook-less twin of the same method. A second family covers the 8 kinds of hooks that cannot fit their method x {0,1,2 additional arguments} systematically; each must be rejected. distinct_nontrivial counts distinct (method shape, pre-hook shape, post-hook shape, operand set) and (misfit kind, method shape) tuples."
-		b.Assume = []string{":reverse is not generated (which operand a hook sees under :reverse is not documented)", "a panic exit of the generator counts as 'rejected' for misfit hooks (that it should be a diagnostic is C14)",
+		b.Assume = []string{":reverse is not generated (which operand a hook sees under :reverse is not documented)",
+			"the hook-less twin of the sentinel differential is generated in arg style: which fields a method assigns is assumed not to depend on :style", "a panic exit of the generator counts as 'rejected' for misfit hooks (that it should be a diagnostic is C14)",
 			"a compiler diagnostic on a hook call line of the generated file is a violation of 'passed by pointer or by value exactly as the hook declares'"}
 		b.Required = []string{"n:hook_histories_checked", "n:sentinel_differentials", "n:misfit_hooks_tried"}
 	}
